@@ -238,10 +238,36 @@ class Builder(ExprMixin):
             return Val("unknown", "default")
         return self.lift(v)
 
-    def inline(self, func, recv, args, kwargs, preds, entry=False, defining_cls=None):
+    def local_wrapper(self, func):
+        """If ``func`` is decorated with a package-local decorator of the wrapper
+        idiom (def deco(f): def w(*a, **k): ... f(*a, **k) ...; return w), return
+        (decorator FuncInfo, wrapper FuncInfo, name of the decorator's parameter)."""
+        if getattr(func, "_raw_call", False):
+            return None
+        for d in func.decorators:
+            base = d.split(".")[-1]
+            if base in ("classmethod", "staticmethod", "property", "abstractmethod", "setter", "getter", "wraps") or d.endswith(".setter"):
+                continue
+            r = self.model.resolve(func.module, d) if "." not in d else None
+            if r is None or r[0] != "func":
+                continue
+            deco = r[1]
+            inner = [f for f in self.model.functions if f.parent is deco]
+            params = [a.arg for a in deco.node.args.args]
+            if len(inner) == 1 and len(params) == 1:
+                return deco, inner[0], params[0]
+        return None
+
+    def inline(self, func, recv, args, kwargs, preds, entry=False, defining_cls=None, closure=None, skip_wrapper=False):
         """Inline a call of ``func``.  Returns (preds, return value)."""
         if not preds:
             return set(), Val("unknown", "dead")
+        lw = None if skip_wrapper else self.local_wrapper(func)
+        if lw is not None:
+            deco, wrapper, pname = lw
+            raw = Val("rawfunc", func, recv)
+            wargs = ([recv] if recv is not None else []) + list(args)
+            return self.inline(wrapper, None, wargs, kwargs, preds, entry=False, defining_cls=defining_cls, closure={pname: raw}, skip_wrapper=True)
         # activations are distinguished by the abstract counter state too: the
         # suspend depth decides which branches a re-entered _load/_save takes
         key = (func, show(recv) if recv is not None else None, tuple(sorted((str(k), str(v)) for k, v in self.counts.items())))
@@ -268,6 +294,7 @@ class Builder(ExprMixin):
             return out, Val("call", "recurse:" + func.qualname, recv, tuple(args), ())
         frame = Frame(func, recv, defining_cls or func.cls)
         frame.key = key
+        frame.closure = closure or {}
         saved_stmt = self.cur_stmt
         self.frames.append(frame)
         try:
